@@ -40,7 +40,11 @@ def hostile_requests(rng, model, full: bool) -> typing.List[typing.Tuple[str, by
            b"/arch.zip/nope", b"/arch.zip/inner.txt/x", b"/arch.zip/sub/", b"/gm/gophermap/x",
            b"/cgi.sh?a b", b"/cgi.sh|x", b"/echo.pyg?q", b"/umn/one.txt\x00", b"/\x00",
            b"/1/umn", b"/0/umn/one.txt", b"/x/", b"URL:http://example.org/", b"/URL:http://e.org/a b",
-           b"/URL:x", b"/URL:http://e.org/\"q", b"/" + b"A" * 3000]
+           b"/URL:x", b"/URL:http://e.org/\"q", b"/" + b"A" * 3000,
+           # NUL in front of, inside and behind the real part of selectors that carry a virtual argument
+           b"/mail.mbox\x00|/MBOX-MESSAGE/1", b"/\x00/mail.mbox|/MBOX-MESSAGE/2", b"/mail\x00.mbox?/MBOX-MESSAGE/1", b"/nope\x00|/MBOX-MESSAGE/1",
+           b"/md\x00|/MAILDIR-MESSAGE/1", b"/\x00|/MAILDIR-MESSAGE/1", b"/cgi.sh\x00?x", b"/cgi.sh?x\x00y", b"/echo.pyg\x00|q", b"/arch.zip\x00/inner.txt",
+           b"/arch.zip/inner.txt\x00", b"/gm\x00", b"/umn\x00/one.txt", b"/mail.mbox|/MBOX-MESSAGE/1\x00", b"/mail.mbox|\x00/MBOX-MESSAGE/1"]
     for sel in bad:
         for view in reqs.VIEWS:
             data, tls = reqs.render(view, sel)
